@@ -166,6 +166,24 @@ def size_exceeded_truth(lf):
                 continue
             a, b = look(t[2]), look(t[3])
             op = t[1]
+            # `min(length, limit) < length` is `length > limit` (and `min(..) >= length` its negation)
+            for m_, other, flip in ((a, b, False), (b, a, True)):
+                m0 = _strip_casts(m_)
+                if is_call(m0, "min") and len(m0[2]) == 2 and is_len_term(other):
+                    p_, q_ = m0[2]
+                    if (is_len_term(p_) and is_lim_term(q_)) or (is_lim_term(p_) and is_len_term(q_)):
+                        rel = op if not flip else {"Gt": "Lt", "Lt": "Gt", "Ge": "Le", "Le": "Ge"}[op]
+                        # rel relates min ? length
+                        if rel == "Lt":
+                            v = tv
+                        elif rel == "Ge":
+                            v = not tv
+                        else:
+                            v = ("wrong-operator", "min(length, limit) %s length" % rel)
+                        a = None
+                        break
+            if a is None:
+                continue
             if is_len_term(a) and is_lim_term(b):
                 pass
             elif is_lim_term(a) and is_len_term(b):
